@@ -61,6 +61,8 @@ class Ctx:
             self.attach()
             self._native, secs = kn.build_native(self.scratch)
             self.backends_s['native-build'] = self.backends_s.get('native-build', 0) + secs
+            for rel in getattr(self.scratch, 'detached', []):
+                self.undecided.append('native harness for %s no longer compiles against the working tree and was detached (its checks are undecided)' % rel)
         return self._native
 
     def add(self, ob):
